@@ -3,6 +3,8 @@ package main
 import (
 	"fmt"
 	"strings"
+
+	textwire "github.com/textwire/textwire/v2"
 )
 
 // C17 — Response writes the page or one error page, and leaks no detail unless debugging.
@@ -13,6 +15,7 @@ type c17Case struct {
 	Page   int  `json:"page"`             // index into c17Pages
 	Kind   int  `json:"kind"`             // which fault the failing page contains
 	Second bool `json:"second,omitempty"` // the same call issued a second time (same body expected)
+	Prior  int  `json:"prior,omitempty"`  // 0 none; 1: a failing Response under the opposite debug mode was served earlier in this process; 2: one under the same mode with another error
 }
 
 var c17Pages = []string{"ok", "fail-start", "fail-middle", "fail-end", "fail-in-layout", "fail-in-component", "fail-second-pass", "unknown", "fail-in-insert", "fail-after-component"}
@@ -21,6 +24,7 @@ var c17Faults = []struct{ src, msgPart string }{
 	{"{{ secretVar }}", "secretVar"},
 	{`{{ 1 + "SECRETMSG" }}`, "type mismatch"},
 	{"{{ 10 / 0 }}", "division by zero"},
+	{"{{ 'SECRETMSG' % 'de' }}", "operator"}, // the message contains a per cent sign
 }
 
 const c17Marker = "MARK-"
@@ -33,7 +37,7 @@ func c17Tree(cs c17Case) (Tree, string) {
 	name := "p"
 	switch c17Pages[cs.Page] {
 	case "ok":
-		t.Files["p.tw"] = c17Marker + "1 fine {{ 1 + 2 }} @component(\"comp\", {a: 5})\n" + c17Marker + "2"
+		t.Files["p.tw"] = c17Marker + "1 fine {{ 1 + 2 }} 100% %d %s @component(\"comp\", {a: 5})\n" + c17Marker + "2"
 	case "fail-start":
 		t.Files["p.tw"] = fault + "\n" + c17Marker + "1 text\n" + c17Marker + "2"
 	case "fail-middle":
@@ -59,7 +63,7 @@ func c17Tree(cs c17Case) (Tree, string) {
 	switch cs.ErrPg {
 	case 1:
 		t.ErrorPage = "err"
-		t.Files["err.tw"] = "CUSTOM-ERROR-PAGE {{ 40 + 2 }}"
+		t.Files["err.tw"] = "CUSTOM-ERROR-PAGE {{ 40 + 2 }} 50% %v off"
 	case 2:
 		t.ErrorPage = "noerrpage"
 	case 3:
@@ -67,16 +71,36 @@ func c17Tree(cs c17Case) (Tree, string) {
 		t.Files["err.tw"] = "CUSTOM {{ undefinedInErrorPage }}"
 	case 4:
 		t.ErrorPage = "errors/e500"
-		t.Files["errors/e500.tw"] = "CUSTOM-ERROR-PAGE {{ 40 + 2 }}"
+		t.Files["errors/e500.tw"] = "CUSTOM-ERROR-PAGE {{ 40 + 2 }} 50% %v off"
 	}
 	return t, name
 }
 
 func c17Check(cs c17Case) (ok bool, sig, expected, observed string) {
 	t, name := c17Tree(cs)
+	keep := false
+	if cs.Prior > 0 {
+		// an earlier failing Response in the same process, under another configuration / with another error
+		prior := c17Case{Debug: cs.Debug, ErrPg: 0, Page: 2, Kind: (cs.Kind + 1) % len(c17Faults)}
+		if cs.Prior == 1 {
+			prior.Debug = !cs.Debug
+		}
+		pt, pname := c17Tree(prior)
+		pt.write()
+		if ptpl, plo := pt.load(); plo.Kind == KOut {
+			respond(ptpl, pname, map[string]any{"x": 0})
+		}
+		keep = true
+	}
 	t.write()
-	tpl, lo := t.load()
-	cfg := fmt.Sprintf("debug=%v errorPage=%d page=%s fault=%d", cs.Debug, cs.ErrPg, c17Pages[cs.Page], cs.Kind)
+	var tpl *textwire.Template
+	var lo Outcome
+	if keep {
+		tpl, lo = t.loadKeep()
+	} else {
+		tpl, lo = t.load()
+	}
+	cfg := fmt.Sprintf("debug=%v errorPage=%d page=%s fault=%d prior=%d", cs.Debug, cs.ErrPg, c17Pages[cs.Page], cs.Kind, cs.Prior)
 	if lo.Kind != KOut {
 		return false, "load-failed", "the tree loads (" + cfg + ")", lo.String()
 	}
@@ -110,7 +134,7 @@ func c17Check(cs c17Case) (ok bool, sig, expected, observed string) {
 	customWorks := cs.ErrPg == 1 || cs.ErrPg == 4
 	switch {
 	case !cs.Debug && customWorks:
-		if body != "CUSTOM-ERROR-PAGE 42" {
+		if body != "CUSTOM-ERROR-PAGE 42 50% %v off" {
 			return bad("not-the-custom-page", "body = the custom error page")
 		}
 	case !cs.Debug && cs.ErrPg != 0:
@@ -126,7 +150,11 @@ func c17Check(cs c17Case) (ok bool, sig, expected, observed string) {
 	if !cs.Debug {
 		for _, w := range leakWords {
 			if w != "" && strings.Contains(body, w) {
-				return bad("leak:"+w, "with debug mode off the body contains neither the message nor a path")
+				label := w
+				if w == scratchRoot {
+					label = "<working directory>"
+				}
+				return bad("leak:"+label, "with debug mode off the body contains neither the message nor a path")
 			}
 		}
 	} else {
@@ -155,11 +183,14 @@ func c17Run(c *Ctx) {
 					continue
 				}
 				for kind := range c17Faults {
-					for _, second := range []bool{false, true} {
+					for v := 0; v < 4; v++ {
 						if c.Expired() {
 							return
 						}
-						cs := c17Case{Debug: debug, ErrPg: ep, Page: pg, Kind: kind, Second: second}
+						cs := c17Case{Debug: debug, ErrPg: ep, Page: pg, Kind: kind, Second: v == 1}
+						if v >= 2 {
+							cs.Prior = v - 1
+						}
 						order++
 						c.Trace(cs)
 						ok, sig, exp, obs := c17Check(cs)
@@ -209,10 +240,10 @@ func init() {
 	p := &Property{
 		ID:    "C17",
 		Level: "exploration",
-		Rule: "complete product: {debug on, off} x {no / valid / missing / run-time-failing / nested-directory custom error page} x {succeeding page; page failing at its start / middle / end after marker output; failing inside its layout, inside an insert, inside a component, after a component, in the second pass of a loop; unknown template} x three error kinds x {first call, repeated call}, each from a fresh package state; plus a non-interference pass: with debug off the body must be byte-identical for every failing template and error kind. " +
+		Rule: "complete product: {debug on, off} x {no / valid / missing / run-time-failing / nested-directory custom error page} x {succeeding page; page failing at its start / middle / end after marker output; failing inside its layout, inside an insert, inside a component, after a component, in the second pass of a loop; unknown template} x four error kinds (one whose message contains a per cent sign; pages and the custom error page contain per cent signs too) x {first call, repeated call, after an earlier failing Response served under the opposite debug mode in the same process, after one under the same mode with another error}; plus a non-interference pass: with debug off the body must be byte-identical for every failing template and error kind. " +
 			"Non-trivial: the render fails",
 		Bounds: func(tier string) map[string]any {
-			return map[string]any{"configurations": 2 * 5 * len(c17Pages) * len(c17Faults) * 2, "complete": true}
+			return map[string]any{"configurations": 2 * 5 * len(c17Pages) * len(c17Faults) * 4, "complete": true}
 		},
 		Assume:  []string{"the built-in page is recognised by its <html> frame; leak words are the error message parts, identifiers of the failing page, the scratch directory, template file names and the 'Textwire ERROR' prefix"},
 		Workers: 8,
